@@ -287,3 +287,138 @@ func ruleDecoderErrors(c *Ctx) {
 }
 
 var _ = big.NewInt
+
+// ruleLevelApplied: on every successful path of the functions the service's
+// Gzip / Brotli methods delegate to, a compressing writer is created in that
+// very call with the level argument (or the default constant it is clamped to):
+// a writer recycled from elsewhere keeps the level it was first created with.
+func ruleLevelApplied(c *Ctx) {
+	ctors := map[string]string{"Gzip": "compress/gzip.NewWriterLevel", "Brotli": "github.com/andybalholm/brotli.NewWriterLevel"}
+	for m, ctor := range ctors {
+		mf := c.P.Method("compress", "compressSrv", m)
+		if mf == nil {
+			c.undecided("level-applied", m, "-", "method not found")
+			continue
+		}
+		var root *ssa.Function
+		for _, b := range mf.Blocks {
+			for _, in := range b.Instrs {
+				if ci, ok := in.(ssa.CallInstruction); ok {
+					if sc := ci.Common().StaticCallee(); sc != nil && inPkg(sc, "compress") && sc.Name() != "GetLevel" && sc.Signature.Params().Len() == 2 {
+						root = sc
+					}
+				}
+			}
+		}
+		if root == nil {
+			c.undecided("level-applied", funcName(mf), c.P.pos(mf.Pos()), "the encoder function the method delegates to was not found")
+			continue
+		}
+		name, pos := funcName(root), c.P.pos(root.Pos())
+		var lvlP *Term
+		n, succ := 0, 0
+		bad := []string{}
+		sim := c.P.Simulate(root, SimConfig{
+			Inline: func(callee *ssa.Function, d int) bool { return inPkg(callee, "compress") && d < 4 },
+			Init: func(s *Sim, st *State, params []*Term) {
+				for i, prm := range root.Params {
+					if isIntType(prm.Type()) {
+						lvlP = params[i]
+					}
+				}
+			},
+		}, func(pr *PathResult) {
+			n++
+			if pr.Exit != "return" || len(pr.Results) != 2 {
+				return
+			}
+			if k, isNil := pr.Facts.Decide(eqTerm(pr.Results[1], nilTerm(nil))); !(pr.Results[1].IsNil() || (k && isNil)) {
+				return
+			}
+			succ++
+			created := 0
+			for _, e := range pr.Events {
+				if e.Kind == "call" && e.Callee != nil && e.Callee.String() == ctor {
+					created++
+					lv := e.Args[1]
+					if !(lv.IsConst() || (lvlP != nil && lv.Key() == lvlP.Key())) {
+						bad = append(bad, "the writer is created with level "+prettyTerm(lv)+", not the level argument or its default, on path ["+condString(pr.Conds)+"]")
+					}
+				}
+			}
+			if created != 1 {
+				bad = append(bad, fmt.Sprintf("a successful compression creates %d writers with the requested level (a pooled or shared writer keeps the level it was created with, so the configured / best-compression level is silently ignored) on path [%s]", created, condString(pr.Conds)))
+			}
+		})
+		if sim.Overflow || succ == 0 {
+			c.undecided("level-applied", name, pos, "idiom not recognised")
+			continue
+		}
+		c.check(len(bad) == 0, "level-applied", name, pos, fmt.Sprintf("%d paths: every successful compression creates its writer with the level argument (or its clamped default)", n), strings.Join(uniq(bad), " || "), n)
+	}
+}
+
+// ruleDecodersReadAll: the stream decoders return everything the codec's reader
+// yields (ReadAll over a reader on the whole input) and do not reconfigure the
+// reader.
+func ruleDecodersReadAll(c *Ctx) {
+	readers := []string{"compress/gzip.NewReader", "github.com/andybalholm/brotli.NewReader"}
+	total := 0
+	for _, rd := range readers {
+		for _, fn := range pikeCallersOf(c.P, rd) {
+			total++
+			name, pos := funcName(fn), c.P.pos(fn.Pos())
+			n, succ := 0, 0
+			bad := []string{}
+			c.P.Simulate(fn, SimConfig{}, func(pr *PathResult) {
+				n++
+				if pr.Exit != "return" || len(pr.Results) != 2 {
+					return
+				}
+				var R *Term
+				for _, e := range pr.Events {
+					if e.Kind == "call" && e.Callee != nil && e.Callee.String() == rd {
+						R = e.Result
+						if e.Callee.Signature.Results().Len() == 2 {
+							R = ext(e.Result, 0)
+						}
+						src := e.Args[0].strip()
+						if !(src.Op == "call" && src.Fn != nil && (src.Fn.String() == "bytes.NewBuffer" || src.Fn.String() == "bytes.NewReader") && src.Args[0].Op == "sym") {
+							bad = append(bad, "the codec reader is opened on "+prettyTerm(src)+", not on the whole input")
+						}
+					}
+				}
+				if R == nil {
+					return
+				}
+				for _, e := range pr.Events {
+					if (e.Kind == "call" || e.Kind == "invoke") && len(e.Args) > 0 && e.Args[0].strip().Key() == R.Key() {
+						nm := e.CalleeName()
+						if !(strings.HasSuffix(nm, ").Close") || strings.HasSuffix(nm, ".ReadAll")) {
+							bad = append(bad, "the codec reader is reconfigured / used through "+nm+" (e.g. Multistream(false) or Reset silently drops later members or keeps stale input)")
+						}
+					}
+				}
+				res := pr.Results[0]
+				if res.IsNil() {
+					return
+				}
+				succ++
+				call, ok := isExtOfCallNamed(res, 0, "ReadAll")
+				if !ok || call.Args[0].strip().Key() != R.Key() {
+					bad = append(bad, "the decoded bytes are "+prettyTerm(res)+", not ReadAll of the codec reader (a fixed-size read truncates multi-member or longer streams)")
+				} else if pr.Results[1].Key() != ext(call, 1).Key() {
+					bad = append(bad, "ReadAll's error is not returned")
+				}
+			})
+			if succ == 0 {
+				c.undecided("decoder-reads-all", name, pos, "idiom not recognised")
+				continue
+			}
+			c.check(len(bad) == 0, "decoder-reads-all", name, pos, fmt.Sprintf("%d paths: ReadAll over the codec reader opened on the whole input; the reader is only read and closed", n), strings.Join(uniq(bad), " || "), n)
+		}
+	}
+	if total < 2 {
+		c.undecided("decoder-reads-all", "compress", "-", "gzip/brotli stream decoders not found")
+	}
+}
